@@ -135,7 +135,9 @@ class Cell(NullCell):
     def get_representation(self) -> bytes:
         # CellRepr(c) = CellRepr∞ (c) = d1d2 + data + depth(r_i) for all i + hash(r_i) for all i
         descs = self._descriptors
-        data = self._data_bytes
+        # for a cell of level > 0 (not a pruned branch) the representation at its highest level takes the hash of the
+        # level below in place of the data - this is what calculate_hashes hashes
+        data = self._hashes[-2] if len(self._hashes) > 1 else self._data_bytes
         result = descs + data
         depths = b''
         hashes = b''
